@@ -205,6 +205,10 @@ pub fn queries(ex: &Exact, cap: usize) -> Vec<(f64, &'static str)> {
         let a = ex.scores[i];
         q.push((a, "attainable"));
         q.push((a + 1e-4, "attainable + 1e-4"));
+        // strictly between two grid points of the coarsest granularities (0.1, 0.01): the query is not attainable at
+        // any step, so what each step reports depends on the granularity it really works at
+        q.push((a + 0.15, "attainable + 0.15"));
+        q.push((a - 0.0151, "attainable - 0.0151"));
         if i + 1 < n {
             q.push((0.5 * (a + ex.scores[i + 1]), "midpoint to the next attainable score"));
         }
@@ -258,7 +262,7 @@ pub fn run(ctx: &mut Ctx, rep: &mut Report) {
     let win = |m: usize| cfg.windows(m);
     let entries = exact::menu(&cfg.widths, &win, &cfg.pseudos);
     let grid = format!(
-        "queries per matrix: min-1, every distinct attainable score a (at most {} evenly ranked ones), a+1e-4, midpoint to the next attainable score, max+1; \
+        "queries per matrix: min-1, every distinct attainable score a (at most {} evenly ranked ones), a+1e-4, a+0.15, a-0.0151, midpoint to the next attainable score, max+1; \
          every refinement step of approximate_pvalue with g >= 1e-9 and the final pvalue(); oracle: brute-force tail over all K'^M words (K' = symbols with non-zero background), \
          statement margins (M+1)g / (M+2)g, 1e-6 on probabilities; one evaluation = one (matrix, background, score, step) check; non-trivial = min < score < max",
         cap
